@@ -340,6 +340,26 @@ func suiteC02(c *Ctx) []Suite {
 			}
 			return out
 		}},
+		{Name: "wire/huge-message-frame", Gen: func(c *Ctx) []Case {
+			// the E37 frame law on the real code for messages of 2^24 bytes and more (the model
+			// driver is not fed 16 MB lines; the law checked is Props/C02 `frame`)
+			var out []Case
+			for _, n := range []int{16777215 - 14, 16777215 - 4, 16777215} {
+				var res string
+				safely(func() {
+					it := ast.NewASCIINode(string(bytes.Repeat([]byte{'x'}, n)))
+					msg := ast.NewHSMSDataMessage("", 1, 1, 0, "H<->E", it, 0x0102, []byte{9, 8, 7, 6})
+					b := msg.ToBytes()
+					ib := it.ToBytes()
+					if len(b) != 14+len(ib) || binary.BigEndian.Uint32(b) != uint32(10+len(ib)) ||
+						!bytes.Equal(b[4:14], []byte{1, 2, 1, 1, 0, 0, 9, 8, 7, 6}) || !bytes.Equal(b[14:18], ib[:4]) {
+						res = fmt.Sprintf("message around a %d-character ASCII item: frame is % x (message length field must be %08x)", n, b[:14], 10+len(ib))
+					}
+				})
+				out = append(out, Case{Detail: fmt.Sprintf("frame of a message with a %d-character ASCII item", n), Oracle: res, Nontrivial: true, Tags: []string{"huge-frame"}})
+			}
+			return out
+		}},
 		{Name: "wire/exhaustive-small-widths", Gen: func(c *Ctx) []Case {
 			// every value of I1/U1 always; I2/U2 every value in thorough, a stride in quick
 			var out []Case
@@ -650,6 +670,58 @@ func suiteC13(c *Ctx) []Suite {
 				})
 				out = append(out, Case{Detail: fmt.Sprintf("real ASCII item, %d characters", n), Oracle: res, Nontrivial: true, Tags: []string{"real-item"}})
 			}
+			// the largest constructible item of the wide numeric formats, and one element more
+			widths := []int{8, 4}
+			if c.Tier == "thorough" {
+				widths = []int{8, 4, 2, 1}
+			}
+			for _, w := range widths {
+				for _, kind := range []string{"int", "uint", "float"} {
+					if kind == "float" && w < 4 {
+						continue
+					}
+					max := 16777215 / w
+					for _, cnt := range []int{max/2 + 1, max, max + 1} {
+						args := make([]interface{}, cnt)
+						for i := range args {
+							switch kind {
+							case "int":
+								args[i] = int8(i)
+							case "uint":
+								args[i] = uint8(i)
+							default:
+								args[i] = float32(1.5)
+							}
+						}
+						var it ast.ItemNode
+						p, _ := safely(func() {
+							switch kind {
+							case "int":
+								it = ast.NewIntNode(w, args...)
+							case "uint":
+								it = ast.NewUintNode(w, args...)
+							default:
+								it = ast.NewFloatNode(w, args...)
+							}
+						})
+						res := ""
+						if cnt <= max {
+							if p {
+								res = fmt.Sprintf("%s item of width %d with %d values (%d bytes, within the limit) cannot be constructed", kind, w, cnt, cnt*w)
+							} else {
+								b := it.ToBytes()
+								want, _ := unhx(closedFormHeader(map[string]string{"int": "i", "uint": "u", "float": "f"}[kind]+fmt.Sprint(w), cnt))
+								if len(b) != len(want)+cnt*w || !bytes.HasPrefix(b, want) {
+									res = fmt.Sprintf("%s item of width %d with %d values: wrong header/length", kind, w, cnt)
+								}
+							}
+						} else if !p {
+							res = fmt.Sprintf("%s item of width %d with %d values exceeds the limit but was constructed", kind, w, cnt)
+						}
+						out = append(out, Case{Detail: fmt.Sprintf("max-size %s width %d count %d", kind, w, cnt), Oracle: res, Nontrivial: true, Tags: []string{"real-item-max"}})
+					}
+				}
+			}
 			// one beyond the limit must be refused
 			for _, f := range []struct {
 				name string
@@ -748,6 +820,19 @@ func suiteC14(c *Ctx) []Suite {
 				h := make([]byte, n)
 				c.R.Read(h)
 				add("raw " + hx(h))
+			}
+			return out
+		}},
+		{Name: "ctrl/request-reuse", Gen: func(c *Ctx) []Case {
+			// one request answered twice, then read again: responses must not disturb the request
+			var out []Case
+			for i := 0; i < c.N(300); i++ {
+				h := make([]byte, 10)
+				c.R.Read(h)
+				h[4] = 0
+				h[5] = byte(pick(c.R, 1, 3, 5))
+				kind := map[byte]string{1: "selectrsp", 3: "deselectrsp", 5: "linktestrsp"}[h[5]]
+				out = append(out, Case{Op: fmt.Sprintf("ctrl twice %s %s %d %d", kind, hx(h), c.R.Intn(256), c.R.Intn(256)), Decisive: true, Nontrivial: true, Tags: []string{"ctrl-twice"}})
 			}
 			return out
 		}},
